@@ -43,6 +43,11 @@ def _bodies_intact(method: list) -> bool:
     return True
 
 
+def _report_op(rng):
+    """An update report, or - as on connect / reconnect - a snapshot of all tags."""
+    return ["report", "snapshot"] if rng.random() < 0.25 else ["report"]
+
+
 class SimE(Simulator):
     name = "sime"
     components_real = [
@@ -102,7 +107,7 @@ class SimE(Simulator):
                                                   "Valve: Closed"])])
                 ops.append(["tick", rng.choice([1, 3, 5]), dt])
             elif r < 0.3:
-                ops.append(["report"])
+                ops.append(_report_op(rng))
             elif r < 0.35:
                 ops.append(["tick", 1, rng.choice([2.0, 5.0, 30.0])])     # stall
             elif r < 0.45:
@@ -134,7 +139,13 @@ class SimE(Simulator):
                 name = rng.choice(list(gen.PV_VALUES))
                 ops.append(["pv", name, rng.choice(gen.PV_VALUES[name])])
             elif r < 0.5:
-                ops.append(["report"])
+                ops.append(_report_op(rng))
+                if rng.random() < 0.3:
+                    # a value that goes away and comes back between reports of different kinds
+                    name = rng.choice(list(gen.PV_VALUES))
+                    a, b = rng.sample(gen.PV_VALUES[name], 2)
+                    ops += [["pv", name, a], ["tick", 1, 0.1], ["report"], ["pv", name, b], ["tick", 1, 0.1], _report_op(rng),
+                            ["pv", name, a], ["tick", 1, 0.1], ["report"]]
             elif r < 0.56:
                 ops.append(["user", rng.choice(["Pause", "Unpause", "Hold", "Unhold"])])
             elif r < 0.58:
@@ -529,8 +540,12 @@ class SimE(Simulator):
         ops.append(["tick", 5, 0.1])
         ops.append(["end_stop"])
         ops.append(["archive_check"])
-        return {"cfg": {"archiver": True, "data_log_interval": rng.choice([0.05, 0.25, 0.6]), "runlog_every": 50,
-                        "wellformed": False}, "method": method, "ops": ops}
+        cfg = {"archiver": True, "data_log_interval": rng.choice([0.05, 0.25, 0.6]), "runlog_every": 50, "wellformed": False}
+        if rng.random() < 0.5:
+            # UOD variant: tags of the unit's own, one of which opts out of the archive
+            cfg["extra_tags"] = [[nm, rng.choice(["L", "%", None]), rng.choice([1.0, 7.5])]
+                                 for nm in rng.sample(["XA", "NOARCH1", "XB", "NOARCH2"], rng.randint(1, 3))]
+        return {"cfg": cfg, "method": method, "ops": ops}
 
     def shrink(self, plan: dict) -> Iterator[dict]:
         # drop method lines (whole sub-trees), shorten tick runs, normalise dt
